@@ -309,6 +309,7 @@ def c07_units(tier, seed):
     # years with a solar-term instant whose seconds round up across a minute / hour / day boundary: every lunar
     # constructor of such a year converts that instant (carry chain of NewSolarFromJulianDay)
     ys = sorted(set(ys) | {min(v, key=lambda y: abs(y - 2000)) for v in scan_feature_years("term-instant-rounds-up").values()})
+    ys = sorted(set(ys) | {16, 19})  # lunar years whose New Year falls in December of the previous civil year (AD 9-23 reform)
     for Y in ys:
         for mo in range(-13, 14):
             us.append(dict(id=f"C07b[Y={Y},mo={mo}]", harness="calendar.VH_C07_NewLunar", params={"Y": Y, "MO": mo}))
